@@ -212,6 +212,37 @@ def judge_loss(case, obs):
         if present_at_end and not failed and obs["_connected_at_end"] is False:
             out.append(("C17:%s:never-reconnects" % drv, "device back since t=%.3f, 'failed' never reported, but the driver is still "
                         "disconnected at t=%.1f; status log %r" % (restores[-1], obs["t_end"], obs["status_log"][-4:])))
+    # ---- an outage does not open a caller's transaction to others: on each connection, no frame of another caller
+    #      lies between the first and the last frame of a sequence / transaction caller (callers may be cancelled or
+    #      fail while the device is away; the others keep what they hold)
+    tags = obs.get("tags", {})
+    seg = []
+    segments = [seg]
+    for w in obs.get("wire_all", []):
+        if w["kind"] == "open":
+            seg = []
+            segments.append(seg)
+        elif w["kind"] == "send":
+            ci = tags.get("%d:%d" % (w["bits"], w["value"]))
+            if ci is not None:
+                seg.append(ci)
+    for seg in segments:
+        done = False
+        for ci in sorted(set(seg)):
+            if case["callers"][ci]["kind"] not in ("seq", "txn"):
+                continue
+            idx = [i for i, x in enumerate(seg) if x == ci]
+            between = [x for x in seg[idx[0]:idx[-1] + 1] if x != ci]
+            if between:
+                out.append(("C17:%s:transaction-entered-by-another-caller" % drv,
+                            "frames of callers %r were written between the first and the last frame of caller %d (%s) on one "
+                            "connection: order of callers on the wire %r; events %r; cancellations %r"
+                            % (sorted(set(between)), ci, case["callers"][ci]["kind"], seg,
+                               [(e["t"], e["what"]) for e in ev], [(i, c["cancel"]) for i, c in enumerate(case["callers"]) if "cancel" in c])))
+                done = True
+                break
+        if done:
+            break
     # ---- every round of automatic retries is ONE chain: after each 'disconnected' report the attempts come one
     #      interval after the report and one interval after each other until 'connected' / 'failed' - also when the
     #      application had connected by hand in between.  (A connect() by hand while the device is absent starts a
@@ -364,6 +395,12 @@ def loss_case(draw, driver=None):
         kind = draw(st.sampled_from(["send", "send", "seq", "txn"]))       # txn: own transaction, in_transaction=True sends
         cmds = [_cmd(draw, 2 + ci * 9 + j, Q + N) for j in range(1 if kind == "send" else draw(st.integers(1, 3)))]
         callers.append({"kind": kind, "cmds": cmds, "t0": draw(st.sampled_from([0.0, 0.0, 0.01, 0.03, 0.06, 0.5, 1.2, 2.5]))})
+        if kind == "seq" and draw(st.booleans()):
+            cmds.insert(draw(st.integers(0, len(cmds))), {"k": "sleep", "d": draw(st.sampled_from([0.02, 0.3]))})
+        # (hasseb reports carry no identity: an abandoned QUERY's answer cannot be told from the next query's - documented)
+        if draw(st.integers(0, 3)) == 0 and not (drv == "hasseb" and any("oc" in c for c in cmds)):
+            # the application gives up on this caller at some point (often while the device is away)
+            callers[-1]["cancel"] = callers[-1]["t0"] + draw(st.sampled_from([0.05, 0.15, 0.3, 0.45, 0.8, 1.3]))
     t_loss = draw(st.sampled_from([0.0, 0.0005, 0.01, 0.02, 0.03, 0.04, 0.045, 0.05, 0.06, 0.07, 0.09, 0.2]))
     how = draw(st.sampled_from(["error", "eof", "silent", "write_fails"]))
     events = []
